@@ -56,12 +56,12 @@ func init() {
 		NumCases: func(tier, variant string) int {
 			if variant == "race" {
 				if tier == "thorough" {
-					return 400
+					return 300
 				}
 				return 32
 			}
 			if tier == "thorough" {
-				return 5000
+				return 3000
 			}
 			return 200
 		},
